@@ -54,7 +54,7 @@ type Unit struct {
 	MaxUConst   bool                // the unit uses the symbolic bound maxU for the type parameter U
 	Assumptions map[string]bool     // collected during translation
 	Refused     map[string]string   // function key -> reason
-	Provider    func(fv *FV, call *ast.CallExpr) *CalleeSpec // synthesised contracts for special callees
+	Provider    func(fv *FV, call *ast.CallExpr, cx *Cx) *CalleeSpec // synthesised contracts for special callees
 	TrustedExt  map[string]*ExtSpec // assumed contracts of external functions
 	mapKeySort  map[string]Sort
 	SpecConsts  map[string]Sort // spec-level constants (declared by the unit's prelude)
@@ -611,4 +611,18 @@ func (u *Unit) resolveTypeExpr(e ast.Expr) types.Type {
 		}
 	}
 	return tInt
+}
+
+// ensureSort makes sure a datatype sort named in a contract ("DT_memoKey") is declared.
+func (u *Unit) ensureSort(s Sort) {
+	name := strings.TrimPrefix(string(s), "DT_")
+	if name == string(s) {
+		return
+	}
+	if _, ok := u.datatypes[name]; ok {
+		return
+	}
+	if obj, ok := u.Pkg.Types.Scope().Lookup(name).(*types.TypeName); ok {
+		u.sortOf(obj.Type())
+	}
 }
